@@ -42,6 +42,12 @@ pub struct TyDef {
     pub k: K,
     /// written in place (builtin notation) instead of as a named assignment
     pub inline: bool,
+    /// a `K::Seq` written as SET: its values may list the components in any order
+    #[serde(default)]
+    pub set: bool,
+    /// DEFAULT values of the components of a `K::Seq` (parallel to the components; empty = none)
+    #[serde(default)]
+    pub defaults: Vec<Option<Lit>>,
 }
 
 #[derive(Clone, Debug, Serialize, Deserialize, PartialEq)]
@@ -300,6 +306,8 @@ impl<'a, 'b> G<'a, 'b> {
         };
         let which = self.src.weighted(&ws);
         self.depth_now = depth;
+        let mut pending_defaults: Vec<Option<Lit>> = vec![];
+        let mut pending_set = false;
         let k = match which {
             0..=7 => self.simple_kind(which),
             8 => {
@@ -328,6 +336,24 @@ impl<'a, 'b> G<'a, 'b> {
                     let optional = self.src.chance(12) && !friendly;
                     comps.push((id, t, optional));
                 }
+                // DEFAULT on members of simple types; SET instead of SEQUENCE
+                let mut defaults: Vec<Option<Lit>> = vec![None; comps.len()];
+                if self.src.chance(40) {
+                    for (i, (_, t, optional)) in comps.iter().enumerate() {
+                        let simple = matches!(
+                            self.types[*t].k,
+                            K::Int { .. } | K::Bool | K::Enum { .. } | K::Octets | K::Str(StrKind::Utf8 | StrKind::Ia5 | StrKind::Printable | StrKind::Numeric | StrKind::Visible)
+                        );
+                        if simple && !*optional && self.src.chance(45) {
+                            defaults[i] = Some(self.gen_value(*t, depth + 1));
+                        }
+                    }
+                }
+                pending_defaults = defaults;
+                // SET: not the shapes of C01's findings F-empty-set (no components) and
+                // F-set-field-constraint (a member with a constraint written in place)
+                let constrained_inline = comps.iter().any(|(_, t, _)| self.types[*t].inline && matches!(self.types[*t].k, K::Int { range: Some(_), .. }));
+                pending_set = self.src.chance(35) && !comps.is_empty() && !constrained_inline;
                 K::Seq(comps)
             }
             _ => {
@@ -338,7 +364,10 @@ impl<'a, 'b> G<'a, 'b> {
         };
         let inline = allow_inline && Self::can_inline(&k) && self.src.chance(45);
         let name = format!("Ty{}", self.types.len());
-        self.types.push(TyDef { name, k, inline });
+        if pending_defaults.iter().all(|d| d.is_none()) {
+            pending_defaults.clear();
+        }
+        self.types.push(TyDef { name, k, inline, set: pending_set, defaults: pending_defaults });
         self.types.len() - 1
     }
 
@@ -636,19 +665,41 @@ impl<'a, 'b> G<'a, 'b> {
                 Lit { av: AV::Choice(i, Box::new(inner.av)), text: format!("{}{sep}{}", alts[i].0, inner.text), forms }
             }
             K::Seq(comps) => {
-                let mut forms = vec!["sequence-value".to_string()];
+                let is_set = self.types[ti].set;
+                let defaults = self.types[ti].defaults.clone();
+                let mut forms = vec![if is_set { "set-value".to_string() } else { "sequence-value".to_string() }];
                 let mut vals = vec![];
                 let mut parts = vec![];
-                for (id, t, optional) in comps {
+                for (n, (id, t, optional)) in comps.iter().enumerate() {
                     if *optional && self.src.chance(45) {
                         vals.push(None);
                         forms.push("sequence-value:absent-optional".into());
                         continue;
                     }
+                    if let Some(Some(d)) = defaults.get(n) {
+                        if self.src.chance(40) {
+                            // an omitted component with a DEFAULT denotes the default value
+                            vals.push(Some(d.av.clone()));
+                            forms.push("sequence-value:omitted-default".into());
+                            continue;
+                        }
+                        forms.push("sequence-value:default-member-written".into());
+                    }
                     let inner = self.gen_value(*t, depth + 1);
                     forms.extend(inner.forms.iter().cloned());
                     parts.push(format!("{id} {}", inner.text));
                     vals.push(Some(inner.av));
+                }
+                if is_set && parts.len() > 1 {
+                    // the components of a SET value may be written in any order
+                    let before = parts.clone();
+                    for i in (1..parts.len()).rev() {
+                        let j = self.src.pick(i + 1);
+                        parts.swap(i, j);
+                    }
+                    if parts != before {
+                        forms.push("set-value:permuted".into());
+                    }
                 }
                 let text = if parts.is_empty() { "{}".to_string() } else { format!("{{ {} }}", parts.join(", ")) };
                 Lit { av: AV::Seq(vals), text, forms }
@@ -750,7 +801,8 @@ fn decoy_text(c: &Case) -> String {
 // ------------------------------------------------------------------------------------------
 // printing
 
-fn kind_text(c: &Case, k: &K) -> String {
+fn kind_text(c: &Case, td: &TyDef) -> String {
+    let k = &td.k;
     match k {
         K::Int { named, range } => {
             let mut s = "INTEGER".to_string();
@@ -784,12 +836,21 @@ fn kind_text(c: &Case, k: &K) -> String {
         }
         K::Choice(alts) => format!("CHOICE {{ {} }}", alts.iter().map(|(i, t)| format!("{i} {}", ty_ref(c, *t))).collect::<Vec<_>>().join(", ")),
         K::Seq(comps) => {
+            let kw = if td.set { "SET" } else { "SEQUENCE" };
             if comps.is_empty() {
-                "SEQUENCE {}".into()
+                format!("{kw} {{}}")
             } else {
                 format!(
-                    "SEQUENCE {{ {} }}",
-                    comps.iter().map(|(i, t, o)| format!("{i} {}{}", ty_ref(c, *t), if *o { " OPTIONAL" } else { "" })).collect::<Vec<_>>().join(", ")
+                    "{kw} {{ {} }}",
+                    comps
+                        .iter()
+                        .enumerate()
+                        .map(|(n, (i, t, o))| {
+                            let dflt = td.defaults.get(n).and_then(|d| d.as_ref()).map(|d| format!(" DEFAULT {}", d.text)).unwrap_or_default();
+                            format!("{i} {}{}{dflt}", ty_ref(c, *t), if *o { " OPTIONAL" } else { "" })
+                        })
+                        .collect::<Vec<_>>()
+                        .join(", ")
                 )
             }
         }
@@ -799,7 +860,7 @@ fn kind_text(c: &Case, k: &K) -> String {
 
 fn ty_ref(c: &Case, t: usize) -> String {
     if c.types[t].inline {
-        kind_text(c, &c.types[t].k)
+        kind_text(c, &c.types[t])
     } else {
         c.types[t].name.clone()
     }
@@ -818,7 +879,7 @@ pub fn case_text(c: &Case, module: &str) -> String {
     let mut s = format!("{module} DEFINITIONS AUTOMATIC TAGS ::= BEGIN\n");
     for t in &c.types {
         if !t.inline {
-            s.push_str(&format!("{} ::= {}\n", t.name, kind_text(c, &t.k)));
+            s.push_str(&format!("{} ::= {}\n", t.name, kind_text(c, t)));
         }
     }
     s.push_str(&decoy_text(c));
@@ -844,8 +905,8 @@ pub fn case_text(c: &Case, module: &str) -> String {
 // ------------------------------------------------------------------------------------------
 // DER -> abstract value under the model's type (AUTOMATIC TAGS, no tags in the source)
 
-fn universal_of(k: &K) -> (u64, bool) {
-    match k {
+fn universal_of(td: &TyDef) -> (u64, bool) {
+    match &td.k {
         K::Int { .. } => (2, false),
         K::Bool => (1, false),
         K::Null => (5, false),
@@ -868,6 +929,7 @@ fn universal_of(k: &K) -> (u64, bool) {
         K::Octets => (4, false),
         K::Oid => (6, false),
         K::Enum { .. } => (10, false),
+        K::Seq(_) if td.set => (17, true),
         K::Seq(_) | K::SeqOf(_) => (16, true),
         K::Choice(_) => (0, false),
     }
@@ -884,8 +946,8 @@ fn dec_plain(types: &[TyDef], ti: usize, t: &Tlv) -> Result<AV, String> {
             let (_, at) = alts.get(i).ok_or_else(|| format!("alternative index {i} out of range"))?;
             Ok(AV::Choice(i, Box::new(dec_member(types, *at, t)?)))
         }
-        k => {
-            let (num, cons) = universal_of(k);
+        _ => {
+            let (num, cons) = universal_of(&types[ti]);
             if t.class != 0 || t.num != num || t.cons != cons {
                 return Err(format!("encoded as {}{} where {} is expected", der::tag_name(t.class, t.num), if t.cons { "(constructed)" } else { "" }, der::tag_name(0, num)));
             }
@@ -903,7 +965,7 @@ fn dec_member(types: &[TyDef], ti: usize, t: &Tlv) -> Result<AV, String> {
         }
         dec_plain(types, ti, &t.kids[0])
     } else {
-        let (_, cons) = universal_of(&types[ti].k);
+        let (_, cons) = universal_of(&types[ti]);
         if t.cons != cons {
             return Err("constructed bit does not match the implicitly tagged type".into());
         }
@@ -963,6 +1025,8 @@ fn dec_content(types: &[TyDef], ti: usize, t: &Tlv) -> Result<AV, String> {
                         ki += 1;
                     }
                     _ if *optional => vals.push(None),
+                    // DER leaves out a component that equals its DEFAULT: absent = the default value
+                    _ if types[ti].defaults.get(i).map_or(false, |d| d.is_some()) => vals.push(types[ti].defaults[i].as_ref().map(|d| d.av.clone())),
                     _ => return Err(format!("mandatory component {id} (automatic tag [{i}]) missing")),
                 }
             }
@@ -1248,6 +1312,7 @@ fn judge(ctx: &mut Ctx, prep: &Prepared) -> Judged {
         K::Oid => "OBJECT IDENTIFIER",
         K::Enum { .. } => "ENUMERATED",
         K::Choice(_) => "CHOICE",
+        K::Seq(_) if c.types[c.subject].set => "SET",
         K::Seq(_) => "SEQUENCE",
         K::SeqOf(_) => "SEQUENCE OF",
     };
@@ -1377,6 +1442,15 @@ fn shrink_case(host: &Host, case: &Case, key: &str, finding: Option<&'static str
             if best.decoys == 3 {
                 cands.push(Case { decoys: 1, ..best.clone() });
                 cands.push(Case { decoys: 2, ..best.clone() });
+            }
+        }
+        for (i, t) in best.types.iter().enumerate() {
+            // (the literals keep their component order: a SEQUENCE value in permuted order is
+            // rejected, so this candidate only survives when the order did not matter)
+            if t.set {
+                let mut c2 = best.clone();
+                c2.types[i].set = false;
+                cands.push(c2);
             }
         }
         if best.holder {
